@@ -8,6 +8,7 @@ mod lw;
 #[allow(dead_code)]
 mod corpus;
 mod c12;
+mod c01model;
 mod c13;
 mod c10;
 mod c11;
@@ -47,6 +48,7 @@ fn main() {
     let extra = &args[5..];
     match args[1].as_str() {
         "c12" => c12::run(tier, seed, out, extra),
+        "c01model" => c01model::run(tier, seed, out, extra),
         "c13" => c13::run(tier, seed, out, extra),
         "c10" => c10::run(tier, seed, out, extra),
         "c11" => c11::run(tier, seed, out, extra),
